@@ -25,7 +25,10 @@ STUB = STUB_IP
 ASSUMPTIONS = ["canonical form as stated in README (Contributing) and the property text; compact JSON = no insignificant whitespace, key order free"]
 TIERS = {"quick": {"runs": 20000, "wall": 55}, "thorough": {"runs": 300000, "wall": 1500}}
 
-HOSTS = ["10.0.0.1", "192.168.100.200", "fd00::3", "2001:db8::8a2e:370:7334", "fe80::5%eth0", "fe80::1ff:fe23:4567:890a%3"]
+# advertised spellings; the peer name the socket reports (and the Host header must carry) is the kernel's spelling of the same
+# address: no zone, compressed lower case, IPv4-mapped addresses in dotted form
+HOSTS = ["10.0.0.1", "192.168.100.200", "fd00::3", "2001:db8::8a2e:370:7334", "fe80::5%eth0", "fe80::1ff:fe23:4567:890a%3",
+         "::ffff:10.0.0.9", "FD00:0:0:0:0:0:0:7", "::ffff:c0a8:6401"]
 
 
 def _deep(n: int):
